@@ -60,6 +60,8 @@ def gen_cases(tier, seed):
         for yields in (0, 1, 3):
             cases.append({'adapter': 'create_task', 'depth': 1, 'order': [0], 'outcome': oc, 'thread': False, 'yields': yields})
             cases.append({'adapter': 'create_task', 'depth': 1, 'order': [0], 'outcome': oc, 'thread': True, 'yields': yields})
+    for thread in (False, True):
+        cases.append({'adapter': 'create_task', 'depth': 1, 'order': [0], 'outcome': ['exc', 'creating-call-failed'], 'thread': thread, 'yields': 0, 'factory': 'raises'})
     for depth in (0, 1, 2, 3):
         for oc in (OUTCOMES if depth else OUTCOMES[:4]):
             orders = list(itertools.permutations(range(depth))) or [()]
@@ -233,10 +235,16 @@ def run_case(case):
                     raise AdapterError(oc[1])
                 return oc[1]
 
+            factory = coro
+            if case.get('factory') == 'raises':
+                # "a function which creates the coroutine": the creating call itself fails (no coroutine ever exists)
+                def factory():
+                    raise AdapterError(oc[1])
+
             holder = {}
 
             def start():
-                holder['out'] = futures.create_task(coro, loop)
+                holder['out'] = futures.create_task(factory, loop)
                 holder['out'].add_done_callback(lambda f: calls.append(1))
 
             if thread:
